@@ -58,6 +58,7 @@ func neighMAC(k, gen int) tcpip.LinkAddress {
 type mapping struct {
 	mac tcpip.LinkAddress
 	at  time.Duration
+	seq int64 // order of delivery among the harness's events
 }
 
 type pendingSend struct {
@@ -66,6 +67,7 @@ type pendingSend struct {
 	ch      <-chan struct{}
 	payload []byte
 	started time.Duration
+	seq     int64 // harness event order at which the current wait began
 }
 
 type neighWorld struct {
@@ -77,9 +79,12 @@ type neighWorld struct {
 	pending  []*pendingSend
 	nsent    int
 	flooded  bool
+	ev       int64
 }
 
 func (w *neighWorld) now() time.Duration { return time.Since(w.T0) }
+
+func (w *neighWorld) bump() int64 { w.ev++; return w.ev }
 
 // latest is the most recent mapping delivered for addr, if it is younger than 60 s.
 func (w *neighWorld) latest(addr tcpip.Address) (mapping, bool) {
@@ -91,7 +96,8 @@ func (w *neighWorld) latest(addr tcpip.Address) (mapping, bool) {
 }
 
 func (w *neighWorld) learn(addr tcpip.Address, mac tcpip.LinkAddress) {
-	w.maps[addr] = append(w.maps[addr], mapping{mac, w.now()})
+	w.ev++
+	w.maps[addr] = append(w.maps[addr], mapping{mac, w.now(), w.ev})
 }
 
 // observe checks every frame the stack emitted.
@@ -145,6 +151,18 @@ func (w *neighWorld) observe() {
 			continue
 		}
 		m, ok := w.latest(hop)
+		if ok && m.mac == "evicted?" {
+			// a cache overflow may or may not have evicted the entry: the frame may use
+			// the last real mapping, if that is still young enough
+			ok = false
+			ms := w.maps[hop]
+			for i := len(ms) - 1; i >= 0; i-- {
+				if ms[i].mac != "evicted?" {
+					m, ok = ms[i], true
+					break
+				}
+			}
+		}
 		switch {
 		case !ok:
 			w.Fail("sent-before-resolution", "", "IPv4 packet for % x (next hop % x) was put on the wire although no link address for that next hop was ever delivered to the stack", d.IP.Dst, []byte(hop))
@@ -201,7 +219,7 @@ func (w *neighWorld) trySend(dst tcpip.Address) {
 	case err == nil && int(n) == len(payload):
 		w.Probes["sends_completed"]++
 	case err == tcpip.ErrWouldBlock && ch != nil:
-		w.pending = append(w.pending, &pendingSend{dst: dst, hop: hop, ch: ch, payload: payload, started: w.now()})
+		w.pending = append(w.pending, &pendingSend{dst: dst, hop: hop, ch: ch, payload: payload, started: w.now(), seq: w.bump()})
 		w.Probes["sends_waiting_for_resolution"]++
 	case err == tcpip.ErrNoLinkAddress:
 		// legal only if a resolution of this next hop failed: at least 3 s of requests without a usable answer
@@ -247,22 +265,33 @@ func (w *neighWorld) poll() {
 			if el := w.now() - t0; el < 3*time.Second-time.Millisecond && !w.flooded {
 				w.Fail("failed-too-early", "", "a send waiting for next hop % x failed with no-link-address only %v after the first request of the resolution (3 attempts, about 3 s)", []byte(p.hop), el)
 			}
-			if m, ok := w.latest(p.hop); ok && w.now()-m.at < 59*time.Second && m.at > p.started {
+			if m, ok := w.latest(p.hop); ok && w.now()-m.at < 59*time.Second && m.seq > p.seq && m.mac != "evicted?" {
 				w.Fail("failed-despite-answer", "", "a send waiting for next hop % x failed with no-link-address although a mapping was delivered %v ago, during the resolution", []byte(p.hop), w.now()-m.at)
 			}
 		case err == tcpip.ErrWouldBlock && ch != nil:
 			// a new resolution has started (the previous outcome had expired)
 			p.ch = ch
 			p.started = w.now()
+			p.seq = w.bump()
 			still = append(still, p)
 		}
 	}
 	w.pending = still
 	w.observe()
+	// a mapping delivered while a send waits for that next hop releases the waiter at once
+	for _, p := range w.pending {
+		if m, ok := w.latest(p.hop); ok && m.seq > p.seq && m.mac != "evicted?" && w.now()-m.at >= time.Second {
+			select {
+			case <-p.ch:
+			default:
+				w.Fail("waiter-not-woken-by-reply", "", "a send has been waiting for next hop % x since %v; a mapping for it was delivered at %v, yet %v later the waiter has not been notified", []byte(p.hop), p.started, m.at, w.now()-m.at)
+			}
+		}
+	}
 	// a send that has been waiting for more than 3 s + a step without any answer must have been released
 	for _, p := range w.pending {
 		if w.now()-p.started > 4500*time.Millisecond {
-			if m, ok := w.latest(p.hop); !ok || m.at < p.started {
+			if m, ok := w.latest(p.hop); !ok || m.seq < p.seq {
 				select {
 				case <-p.ch:
 				default:
@@ -295,7 +324,16 @@ func (w *neighWorld) apply(s Step) {
 			w.Probes["link_address_changed"]++
 		}
 		w.learn(addr, mac)
-		w.arpFrom(2, mac, addr, A4, stackMAC)
+		switch s.D % 3 {
+		case 0: // a reply addressed to the stack
+			w.arpFrom(2, mac, addr, A4, stackMAC)
+		case 1: // a gratuitous announcement (target = sender)
+			w.arpFrom(2, mac, addr, addr, bcastMAC)
+			w.Probes["gratuitous_replies"]++
+		case 2: // a reply overheard, addressed to another host
+			w.arpFrom(2, mac, addr, neighAddr((k+1)%6), neighMAC((k+1)%6, 0))
+			w.Probes["overheard_replies"]++
+		}
 		w.observe()
 		w.poll()
 	case "request":
@@ -346,13 +384,22 @@ func (w *neighWorld) apply(s Step) {
 	case "ns":
 		// IPv6 neighbour solicitation for the stack's address (0) or another (1)
 		tgt := A6
-		if s.A%2 == 1 {
+		switch s.A % 3 {
+		case 1:
 			tgt = foreign6
+		case 2:
+			// a foreign address that shares the stack's solicited-node group (same low 24 bits)
+			tgt = tcpip.Address("\x20\x01\x0d\xb8\x00\x00\x00\x00\x00\x00\x00\x00\x00\x00\x00\x01")
+		}
+		dst := A6
+		if s.B%2 == 1 {
+			dst = solicitedNode(tgt) // as real neighbour discovery sends it
+			w.Probes["solicitations_to_multicast_group"]++
 		}
 		body := append(append([]byte(nil), []byte(tgt)...), 1, 1, 2, 0xbb, 0, 0, 0, 9)
 		w.Take()
-		msg := codec.EncodeICMPv6([]byte(B6), []byte(A6), 135, 0, 0, body)
-		w.Inject(w.S.Link, ipv6.ProtocolNumber, codec.IPv6([]byte(B6), []byte(A6), codec.ProtoICMPv6, 255, msg), "\x02\xbb\x00\x00\x00\x09", stackMAC, 0)
+		msg := codec.EncodeICMPv6([]byte(B6), []byte(dst), 135, 0, 0, body)
+		w.Inject(w.S.Link, ipv6.ProtocolNumber, codec.IPv6([]byte(B6), []byte(dst), codec.ProtoICMPv6, 255, msg), "\x02\xbb\x00\x00\x00\x09", stackMAC, 0)
 		na := 0
 		for _, d := range w.Seen {
 			if d.ICMP != nil && d.IP.V6 && d.ICMP.Type == 136 {
@@ -374,7 +421,11 @@ func (w *neighWorld) apply(s Step) {
 		w.Take()
 	case "flood":
 		// hundreds of distinct hosts announce themselves: the cache ring wraps
-		for i := 0; i < 600; i++ {
+		n := int(s.D)
+		if n <= 0 {
+			n = 600
+		}
+		for i := 0; i < n; i++ {
 			a := tcpip.Address([]byte{10, 0, byte(1 + i/250), byte(1 + i%250)})
 			m := tcpip.LinkAddress([]byte{2, 0xcc, 0, byte(i >> 8), byte(i), 1})
 			pkt := codec.EncodeARP(2, []byte(m), []byte(a), []byte(stackMAC), []byte(A4))
@@ -401,17 +452,18 @@ func (w *neighWorld) next(cfg NeighCfg) Step {
 	case 0:
 		return Step{Op: "send", A: r.Intn(6), B: r.Pick(4, 1)}
 	case 1:
-		return Step{Op: "reply", A: r.Intn(6), B: r.Pick(5, 1), C: r.Pick(5, 1)}
+		return Step{Op: "reply", A: r.Intn(6), B: r.Pick(5, 1), C: r.Pick(5, 1), D: int64(r.Pick(6, 2, 1))}
 	case 2:
 		return Step{Op: "request", A: r.Intn(6), B: r.Intn(3)}
 	case 3:
-		return Step{Op: "ns", A: r.Intn(2)}
+		return Step{Op: "ns", A: r.Intn(3), B: r.Intn(2)}
 	case 4:
 		ds := []int{100, 500, 999, 1000, 1001, 2000, 2999, 3000, 3001, 10000, 59000, 61000}
 		return Step{Op: "adv", D: int64(time.Duration(ds[r.Intn(len(ds))]) * time.Millisecond)}
 	}
 	if cfg.Many {
-		return Step{Op: "flood"}
+		// sizes around the cache capacity: the ring wraps onto some slots and not others
+		return Step{Op: "flood", D: int64([]int{100, 400, 495, 500, 505, 508, 510, 511, 512, 513, 520, 600}[r.Intn(12)])}
 	}
 	return Step{Op: "adv", D: int64(time.Duration(r.Range(1, 70000)) * time.Millisecond)}
 }
@@ -430,6 +482,8 @@ func (scNeigh) Run(t *testing.T, prop string, seed uint64, cfgRaw json.RawMessag
 			{Destination: "\x00\x00\x00\x00", Mask: "\x00\x00\x00\x00", Gateway: gateway4, NIC: 1},
 			{Destination: tcpip.Address(make([]byte, 16)), Mask: tcpip.AddressMask(make([]byte, 16)), NIC: 1},
 		})
+		// the stack listens on the solicited-node multicast group of its IPv6 address, as neighbour discovery requires
+		must(w.S.S.AddAddress(1, ipv6.ProtocolNumber, solicitedNode(A6)), "solicited-node address")
 		ep, err := w.S.S.NewEndpoint(udp.ProtocolNumber, ipv4.ProtocolNumber, &waiter.Queue{})
 		must(err, "udp endpoint")
 		must(ep.Bind(tcpip.FullAddress{Addr: A4, Port: 4000}, nil), "bind")
@@ -467,4 +521,9 @@ func (scNeigh) Run(t *testing.T, prop string, seed uint64, cfgRaw json.RawMessag
 		o.Nontrivial = w.Probes["data_frames_after_resolution"] > 0 && w.Probes["arp_requests"] > 0
 	})
 	return o
+}
+
+// solicitedNode is the RFC 4291 solicited-node multicast address of a.
+func solicitedNode(a tcpip.Address) tcpip.Address {
+	return tcpip.Address("\xff\x02\x00\x00\x00\x00\x00\x00\x00\x00\x00\x01\xff" + string(a[13:]))
 }
